@@ -1,4 +1,4 @@
-(** Model of src/epd7in5/mod.rs — STUB, not yet transcribed. *)
+(** Model of src/epd7in5/mod.rs (7.5 inch v1, 4 bits per pixel on the wire). *)
 From Coq Require Import List NArith Bool.
 From EPD Require Import Iface Ops Drv.Luts.
 Import ListNotations.
@@ -8,11 +8,85 @@ Open Scope m_scope.
 Module Epd7in5.
 Definition WIDTH : N := 640.
 Definition HEIGHT : N := 384.
+Definition IS_BUSY_LOW := true.
 
-Definition init : M unit := ret tt.
+Definition wait_until_idle : M unit := wait_idle IS_BUSY_LOW.
 
-Definition exec (k : N) (o : op) : option (M rval) := None.
+Definition send_resolution : M unit :=
+  let w := WIDTH in
+  let h := HEIGHT in
+  cmd 0x61 ;;
+  data [u8 (shr w 8)] ;;
+  data [u8 w] ;;
+  data [u8 (shr h 8)] ;;
+  data [u8 h].
+
+Definition init : M unit :=
+  reset 10000 10000 ;;
+  cmd_with_data 0x01 [0x37; 0x00] ;;
+  cmd_with_data 0x00 [0xCF; 0x08] ;;
+  cmd_with_data 0x06 [0xC7; 0xCC; 0x28] ;;
+  cmd 0x04 ;;
+  delay_us 5000 ;;
+  wait_until_idle ;;
+  cmd_with_data 0x30 [0x3C] ;;
+  cmd_with_data 0x41 [0x00] ;;
+  cmd_with_data 0x50 [0x77] ;;
+  cmd_with_data 0x60 [0x22] ;;
+  send_resolution ;;
+  cmd_with_data 0x82 [0x1E] ;;
+  cmd_with_data 0xE5 [0x03] ;;
+  wait_until_idle.
+
+Definition sleep : M unit :=
+  wait_until_idle ;;
+  cmd 0x02 ;;
+  wait_until_idle ;;
+  cmd_with_data 0x07 [0xA5].
+
+(** every buffer byte is expanded to four bytes (two pixels each, 0x3 per set bit), each sent
+    through its own [data(&[data])] call *)
+Definition update_frame (k len : N) : M unit :=
+  wait_until_idle ;;
+  cmd 0x10 ;;
+  data_each BExp4 1 (DArg k 0 0 len).
+
+Definition update_partial_frame (k len x y width height : N) : M unit := panic.
+
+Definition display_frame : M unit :=
+  wait_until_idle ;;
+  cmd 0x12.
+
+Definition update_and_display_frame (k len : N) : M unit :=
+  update_frame k len ;;
+  cmd 0x12.
+
+Definition clear_frame : M unit :=
+  wait_until_idle ;;
+  send_resolution ;;
+  cmd 0x10 ;;
+  data_x_times 0x33 (WIDTH / 8 * HEIGHT * 4).
+
+Definition set_lut (r : option N) : M unit := panic.
+
+Definition exec (k : N) (o : op) : option (M rval) :=
+  match o with
+  | OSleep => unit_ sleep
+  | OWakeUp => unit_ init
+  | OSetBg c => unit_ (modify (set_bg c))
+  | OGetBg => Some (s <- get ;; ret (RColor (bg s)))
+  | OWidth => Some (ret (RNum WIDTH))
+  | OHeight => Some (ret (RNum HEIGHT))
+  | OUpdateFrame len => unit_ (update_frame k len)
+  | OUpdatePartial len x y w h => unit_ (update_partial_frame k len x y w h)
+  | ODisplay => unit_ display_frame
+  | OUpdateAndDisplay len => unit_ (update_and_display_frame k len)
+  | OClear => unit_ clear_frame
+  | OSetLut r => unit_ (set_lut r)
+  | OWaitIdle => unit_ wait_until_idle
+  | _ => None
+  end.
 
 Definition drv (ft : feat) : driver :=
-  mkDriver WIDTH HEIGHT false d0 init exec.
+  mkDriver WIDTH HEIGHT false (mkD cWhite 0 false false 0 None) init exec.
 End Epd7in5.
